@@ -46,9 +46,33 @@ def tok_snapshot(v):
             qn, val = a.f
             al.append((tuple(qn.f[2].ch), tuple(val.ch)))
         return ("Tag", kind.variant, tuple(name.ch), selfc, tuple(al), dup)
-    # xml tokens
-    if k in ("Tag", "Doctype", "Comment", "Characters", "PIToken", "NullCharacter", "EOF", "Pi", "ProcessingInstruction"):
-        return ("X" + k, repr(v))
+    # xml5ever tokens
+    if k == "Characters":
+        return ("Chars", tuple(deref(v.f[0]).ch))
+    if k == "NullCharacter":
+        return ("Null",)
+    if k == "EndOfFile":
+        return ("EOF",)
+    if k == "Comment":
+        return ("Comment", tuple(deref(v.f[0]).ch))
+    if k == "ProcessingInstruction":
+        pi = v.f[0]
+        return ("PI", tuple(deref(pi.f[0]).ch), tuple(deref(pi.f[1]).ch))
+    if k == "Doctype":
+        d = v.f[0]
+        def opt(o):
+            return tuple(deref(o.f[0]).ch) if o.variant == "Some" else None
+        return ("Doctype", opt(d.f[0]), opt(d.f[1]), opt(d.f[2]), False)
+    if k == "Tag":
+        t = v.f[0]
+        kind, name, attrs = t.f
+        def qn(q):
+            pre = q.f[0]
+            return (tuple(pre.f[0].ch) if isinstance(pre, Enum) and pre.variant == "Some" else None, tuple(q.f[2].ch))
+        al = []
+        for a in attrs.v:
+            al.append((qn(a.f[0]), tuple(a.f[1].ch)))
+        return ("XTag", kind.variant, qn(name), tuple(al))
     return ("?", repr(v))
 
 
@@ -63,7 +87,9 @@ def err_snapshot(c):
 
 @model("<Sink as TokenSink>::process_token")
 def sink_process_token(m, a, c):
-    tok, line = a[1], a[2]
+    tok = a[1]
+    xml = len(a) < 3
+    line = a[2] if not xml else 0
     snap = tok_snapshot(tok)
     m.notes.setdefault("tokens", []).append((snap, line))
     q = m.notes.get("q")
@@ -78,6 +104,8 @@ def sink_process_token(m, a, c):
     if snap[0] == "EOF":
         m.notes["seen_eof"] = True
     cfg = m.notes["sinkcfg"]
+    if xml:
+        return m.prog.make_adt(m, "ProcessResult::Continue", [], None)
     mk = lambda v, f=(): m.prog.make_adt(m, "TokenSinkResult::" + v, list(f), None)
     if snap[0] == "Tag" and snap[1] == "StartTag":
         ans = cfg.on_start
@@ -100,7 +128,7 @@ def sink_end(m, a, c):
     return UNIT
 
 
-@model("Tokenizer::dump_profile")
+@model("Tokenizer::dump_profile", "XmlTokenizer::dump_profile")
 def dump_profile(m, a, c):
     # prints the profiling table through println!; output formatting is not the subject
     return UNIT
@@ -142,6 +170,7 @@ class Cfg:
         self.simd = True
         self.chunks = None             # list of lists of char values; None = one chunk
         self.end = True
+        self.dialect = "html"
         self.__dict__.update(kw)
 
 
@@ -157,6 +186,14 @@ SUB_ENUM = {"Rcdata": "RawKind", "Rawtext": "RawKind", "ScriptData": "RawKind", 
             "Escaped": "ScriptEscapeKind", "DoubleEscaped": "ScriptEscapeKind",
             "Public": "DoctypeIdKind", "System": "DoctypeIdKind",
             "Unquoted": "AttrValueKind", "SingleQuoted": "AttrValueKind", "DoubleQuoted": "AttrValueKind"}
+
+
+def xml_state_value(prog, m, st):
+    if isinstance(st, str):
+        return prog.make_adt(m, "states::XmlState::" + st, [], None)
+    head, arg = st
+    en = "AttrValueKind" if arg in AVK else "DoctypeKind"
+    return prog.make_adt(m, "states::XmlState::" + head, [prog.make_adt(m, "states::%s::%s" % (en, arg), [], None)], None)
 
 
 def sub_value(prog, m, arg):
@@ -194,10 +231,16 @@ def run_one(prog, cfg, decisions, chars):
     r = PathResult()
     r.feed_results = []
     try:
-        init = some(state_value(prog, m, cfg.state)) if cfg.state is not None else none()
-        last = some(Str(cfg.last_start_tag)) if cfg.last_start_tag is not None else none()
-        opts = Struct("TokenizerOpts", [cfg.exact_errors, cfg.discard_bom, cfg.profile, init, last])
-        tk = m.call("Tokenizer::new", [Struct("Sink", []), opts])
+        xml = getattr(cfg, "dialect", "html") == "xml"
+        T = "XmlTokenizer" if xml else "Tokenizer"
+        if xml:
+            init = some(xml_state_value(prog, m, cfg.state)) if cfg.state is not None else none()
+            opts = Struct("XmlTokenizerOpts", [cfg.exact_errors, cfg.discard_bom, cfg.profile, init])
+        else:
+            init = some(state_value(prog, m, cfg.state)) if cfg.state is not None else none()
+            last = some(Str(cfg.last_start_tag)) if cfg.last_start_tag is not None else none()
+            opts = Struct("TokenizerOpts", [cfg.exact_errors, cfg.discard_bom, cfg.profile, init, last])
+        tk = m.call(T + "::new", [Struct("Sink", []), opts])
         tkp = Ptr([tk], 0)
         q = BufQ()
         m.notes["q"] = q
@@ -207,7 +250,7 @@ def run_one(prog, cfg, decisions, chars):
             if ch:
                 q.bufs.append(Tendril(ch))
                 m.notes["fed"] = m.notes.get("fed", 0) + len(ch)
-            res = m.call("Tokenizer::feed", [tkp, qp])
+            res = m.call(T + "::feed", [tkp, qp])
             r.feed_results.append(res.variant if isinstance(res, Enum) else repr(res))
             # a Script result suspends the tokenizer; the harness resumes at once (C03 script half is separate)
             guard = 0
@@ -215,13 +258,13 @@ def run_one(prog, cfg, decisions, chars):
                 hook = getattr(cfg, "on_script", None)
                 if hook:
                     hook(m, q)
-                res = m.call("Tokenizer::feed", [tkp, qp])
+                res = m.call(T + "::feed", [tkp, qp])
                 r.feed_results.append(res.variant if isinstance(res, Enum) else repr(res))
                 guard += 1
             if isinstance(res, Enum) and res.variant == "Done" and q.bufs:
                 r.queue_left = True
         if cfg.end:
-            m.call("Tokenizer::end", [tkp])
+            m.call(T + "::end", [tkp])
         r.outcome = "ok"
         r.final_state = repr(tk.f[2])
         r.line = tk.f[-1]
@@ -386,6 +429,23 @@ IDK = ["Public", "System"]
 AVK = ["Unquoted", "SingleQuoted", "DoubleQuoted"]
 
 
+def all_xml_states(prog):
+    vs = None
+    for c in prog.enums.get("XmlState", []):
+        vs = c[0]
+    if vs is None:
+        raise Unsupported("XmlState not found")
+    src = open(os.path.join(prog.src_root, prog.crate_dir, "src/tokenizer/states.rs")).read()
+    out = []
+    for v in vs:
+        m_ = re.search(r"\b%s\((\w+)\)" % v, src)
+        if not m_:
+            out.append(v)
+        else:
+            out.extend((v, k) for k in {"AttrValueKind": AVK, "DoctypeKind": IDK}[m_.group(1)])
+    return out
+
+
 def all_states(prog):
     """every value of states::State, from the enum declaration in the current source"""
     vs = None
@@ -432,6 +492,11 @@ def raw_text(tokens):
         elif k == "Doctype":
             o = lambda x: "-" if x is None else "[%s]" % cps(x)
             s = "Doctype %s %s %s %s" % (o(snap[1]), o(snap[2]), o(snap[3]), "true" if snap[4] else "false")
+        elif k == "PI":
+            s = "PI [%s] [%s]" % (cps(snap[1]), cps(snap[2]))
+        elif k == "XTag":
+            q = lambda x: ("%s:" % cps(x[0]) if x[0] is not None else "") + cps(x[1])
+            s = "XTag %s [%s] [%s]" % (snap[1], q(snap[2]), " ".join("%s=%s" % (q(n), cps(v)) for n, v in snap[3]))
         elif k == "Tag":
             s = "Tag %s [%s] %s [%s] %s" % (snap[1], cps(snap[2]), "true" if snap[3] else "false",
                                            " ".join("%s=%s" % (cps(n), cps(v)) for n, v in snap[4]), "true" if snap[5] else "false")
@@ -458,13 +523,14 @@ def concretize_tokens(tokens, model):
     return [(conv(s), conv(l)) for s, l in tokens]
 
 
-def case_text(cfg, chunks, mode="html", inject=None):
+def case_text(cfg, chunks, mode=None, inject=None):
+    mode = mode or getattr(cfg, "dialect", "html")
     on = cfg.sink.on_start
     if isinstance(on, tuple):
         on = "RawData:" + state_spec(on[1])
     lines = ["mode " + mode, "state " + state_spec(cfg.state), "exact_errors %d" % cfg.exact_errors,
              "discard_bom %d" % cfg.discard_bom, "profile %d" % cfg.profile,
-             "last_start_tag " + (hexs(cfg.last_start_tag) if cfg.last_start_tag is not None else "-"),
+             "last_start_tag " + (hexs(cfg.last_start_tag) if getattr(cfg, "last_start_tag", None) is not None else "-"),
              "on_start " + on, "foreign %d" % cfg.sink.foreign]
     for ch in chunks:
         lines.append("chunk " + hexs(ch))
